@@ -4,7 +4,10 @@ go 1.23.0
 
 toolchain go1.23.7
 
-require github.com/charmbracelet/bubbletea v0.0.0
+require (
+	github.com/charmbracelet/bubbletea v0.0.0
+	golang.org/x/sys v0.32.0
+)
 
 require (
 	github.com/aymanbagabas/go-osc52/v2 v2.0.1 // indirect
@@ -22,7 +25,6 @@ require (
 	github.com/rivo/uniseg v0.4.7 // indirect
 	github.com/xo/terminfo v0.0.0-20220910002029-abceb7e1c41e // indirect
 	golang.org/x/sync v0.13.0 // indirect
-	golang.org/x/sys v0.32.0 // indirect
 )
 
 replace github.com/charmbracelet/bubbletea => /repo
